@@ -12,9 +12,12 @@ import Ark.Model.Ext
   * `&mut` state becomes returned values: the per-pair coefficient iterators `coeffs.next().unwrap()`
     are lists that are consumed (`[]` ↦ panic), `chunks_mut(4)` is `chunks4`, `.product()` is the left
     fold of `*` from `1`.
-  * Identity handling is modelled as written: BLS12/BN/BW6 filter pairs with an identity member
-    (`!p.is_zero() && !q.is_zero()`), MNT4/MNT6 do NOT (F13): the Miller loop then runs on the
-    placeholder coordinates `(0, 0)` of `Affine::identity()`.
+  * Identity handling is modelled as written: every family filters pairs with an identity member
+    (`!p.is_zero() && !q.is_zero()`).  For BLS12/BN/BW6 `is_zero` reads the `infinity` flag; for
+    MNT4/MNT6 (after the `fix:` commit for F13) the identity is *prepared* as the coordinates `(0, 0)`
+    (G2: without coefficients) and `is_zero` of the prepared values tests `x == 0 && y == 0`.
+  * BW6 `multi_miller_loop` is modelled after the `fix:` commit for F14: `f_u` (the product over all
+    chunks) enters `f_1` once and only chunk 0 of the second loop carries `(f_u, f_u_inv)`.
   * Rust panics are explicit (`Ark.Outcome`): `unwrap`s on inverses / coefficient iterators / `xy()`,
     `zip_eq` on lists of different length, `assert_eq!`, slice indexing, `unreachable!()`.
   * "prepared = unprepared" holds by construction: `multiMillerLoop` of affine inputs is *defined*
@@ -241,6 +244,14 @@ def overChunks {α T : Type} (body : List α → Outcome (T × List α)) :
   | c :: cs =>
     obind (body c) fun (t, c') =>
     obind (overChunks body cs) fun (ts, rest) => .ok (t :: ts, c' ++ rest)
+
+/-- the same over `chunks_mut(4).enumerate()`: the body also receives the chunk index -/
+def overChunksIdx {α T : Type} (body : Nat → List α → Outcome (T × List α)) :
+    Nat → List (List α) → Outcome (List T × List α)
+  | _, [] => .ok ([], [])
+  | i, c :: cs =>
+    obind (body i c) fun (t, c') =>
+    obind (overChunksIdx body (i + 1) cs) fun (ts, rest) => .ok (t :: ts, c' ++ rest)
 
 /-! ## BLS12 (`bls12/mod.rs`, `bls12/g2.rs`) -/
 
@@ -599,8 +610,10 @@ def chunkLoop2 (E : Bw6 P F T) (fU fUInv : T) :
       obind (ellRound (ell E) f ps) fun (f, ps) => chunkLoop2 E fU fUInv ds f ps
     else chunkLoop2 E fU fUInv ds f ps
 
-/-- `BW6Config::multi_miller_loop` on prepared inputs.  Note that every chunk of `f_1` and of `f_2`
-    starts from the *global* `f_u` (the product over all chunks). -/
+/-- `BW6Config::multi_miller_loop` on prepared inputs.  `f_u` is the product over all chunks; it
+    multiplies `f_1` once (`f_u * Π_chunks fold(one, ell)`), and in the second loop
+    (`chunks_mut(4).enumerate()`) only chunk 0 starts from `f_u` and multiplies by `f_u` / `f_u_inv`
+    on the non-zero digits, the other chunks use `(one, one)`. -/
 def multiMillerLoopPrepared (E : Bw6 P F T) (a : List (Aff F)) (b : List (Bw6G2Prepared F)) : Outcome T :=
   obind (zipEq a b) fun zs =>
   let kept := zs.filter fun (p, q) => !p.infinity && !q.infinity
@@ -613,9 +626,12 @@ def multiMillerLoopPrepared (E : Bw6 P F T) (a : List (Aff F)) (b : List (Bw6G2P
       obind (cycInvInPlace E.C fU) fun g => .ok (g, fU)
     else
       obind (invUnwrap E.C.cycInverse fU) fun g => .ok (fU, g)) fun (fU, fUInv) =>
-  obind (overChunks (fun ps => ellRound (ell E) fU ps) (chunks4 pairs1)) fun (f1s, _) =>
-  let f1 := product f1s
-  obind (overChunks (fun ps => chunkLoop2 E fU fUInv (revDigits E.ateLoopCount2) fU ps) (chunks4 pairs2))
+  let one : T := 1
+  obind (overChunks (fun ps => ellRound (ell E) one ps) (chunks4 pairs1)) fun (f1s, _) =>
+  let f1 := fU * product f1s
+  obind (overChunksIdx (fun chunkIndex ps =>
+      let (fU, fUInv) := if chunkIndex = 0 then (fU, fUInv) else (one, one)
+      chunkLoop2 E fU fUInv (revDigits E.ateLoopCount2) fU ps) 0 (chunks4 pairs2))
     fun (f2s, _) =>
   let f2 := product f2s
   obind (if E.ateLoopCount2IsNegative then cycInvInPlace E.C f2 else .ok f2) fun f2 =>
@@ -835,11 +851,20 @@ structure Mnt (P F G : Type) where
   C : CycD (Quad G)
 
 namespace Mnt
-variable {P F G : Type} [Add G] [Sub G] [Mul G] [Neg G] [Zero G] [One G] [DecidableEq G]
+variable {P F G : Type} [Zero F] [DecidableEq F]
+  [Add G] [Sub G] [Mul G] [Neg G] [Zero G] [One G] [DecidableEq G]
   [Mul (Quad G)]
 
-/-- `impl From<G1Affine<P>> for G1Prepared<P>` (no identity test) -/
+/-- `G1Prepared::is_zero`: `self.x.is_zero() && self.y.is_zero()` -/
+def g1IsZero (p : MntG1Prepared F G) : Bool := decide (p.x = 0) && decide (p.y = 0)
+
+/-- `G2Prepared::is_zero`: `self.x.is_zero() && self.y.is_zero()` -/
+def g2IsZero (q : MntG2Prepared G) : Bool := decide (q.x = 0) && decide (q.y = 0)
+
+/-- `impl From<G1Affine<P>> for G1Prepared<P>`: an `infinity` point is first replaced by
+    `G1Affine::identity()` = `(0, 0)` -/
 def g1Prepare (E : Mnt P F G) (g1 : Aff F) : MntG1Prepared F G :=
+  let g1 : Aff F := if g1.infinity then Aff.identity else g1
   ⟨g1.x, g1.y, E.mulByFp E.twist g1.x, E.mulByFp E.twist g1.y⟩
 
 /-- `MNT4::doubling_for_flipped_miller_loop` -/
@@ -941,9 +966,11 @@ def prepLoop (E : Mnt P F G) (g negG : Aff G) :
       obind (prepLoop E g negG bits r) fun (r, ds, as) => .ok (r, dc :: ds, as)
     else .panic
 
-/-- `impl From<G2Affine<P>> for G2Prepared<P>` (no identity test: the identity is prepared from
-    its placeholder coordinates) -/
+/-- `impl From<G2Affine<P>> for G2Prepared<P>`: early return for `infinity` with zero coordinates
+    and empty coefficient vectors -/
 def g2Prepare (E : Mnt P F G) (g : Aff G) : Outcome (MntG2Prepared G) :=
+  if g.infinity then .ok ⟨0, 0, 0, 0, [], []⟩
+  else
   obind (invUnwrap E.DG.inverse E.twist) fun twistInv =>
   let negG := g.neg
   obind (prepLoop E g negG (E.ateLoopCount.drop 1) ⟨g.x, g.y, E.oneG, E.oneG⟩) fun (r, ds, as) =>
@@ -996,10 +1023,12 @@ def ateMillerLoop (E : Mnt P F G) (p : MntG1Prepared F G) (q : MntG2Prepared G) 
       invUnwrap E.DT.inverse (f * addEval p q.yOverTwist l1Coeff ac)
     else .ok f
 
-/-- `MNT?Config::multi_miller_loop` on prepared inputs: NO identity filter -/
+/-- `MNT?Config::multi_miller_loop` on prepared inputs: pairs with `is_zero()` on either side are
+    filtered out -/
 def multiMillerLoopPrepared (E : Mnt P F G) (a : List (MntG1Prepared F G)) (b : List (MntG2Prepared G)) :
     Outcome (Quad G) :=
-  obind (zipEq a b) fun pairs =>
+  obind (zipEq a b) fun zs =>
+  let pairs := zs.filter fun (p, q) => !g1IsZero p && !g2IsZero q
   obind (mapO (fun (p, q) => ateMillerLoop E p q) pairs) fun fs => .ok (product fs)
 
 def multiMillerLoop (E : Mnt P F G) (a : List (Aff F)) (b : List (Aff G)) : Outcome (Quad G) :=
